@@ -36,9 +36,9 @@ Range(s) == {s[i] : i \in DOMAIN s}
 (* JSON arrays are sequences: the two sets of a configuration are rebuilt *)
 CfgOf(j) == [id |-> j.id, kind |-> j.kind, backend |-> j.backend, maxR |-> j.maxR, hookFile |-> j.hookFile,
              onDisk |-> j.onDisk, restartOn |-> Range(j.restartOn), shutdownOn |-> Range(j.shutdownOn),
-             stable |-> j.stable, entry |-> j.entry]
+             stable |-> j.stable, entry |-> j.entry, answers |-> "full"]
 NoConfig == [id |-> -1, kind |-> "normal", backend |-> "local", maxR |-> 0, hookFile |-> "empty", onDisk |-> FALSE,
-             restartOn |-> {}, shutdownOn |-> {}, stable |-> TRUE, entry |-> "controller"]
+             restartOn |-> {}, shutdownOn |-> {}, stable |-> TRUE, entry |-> "controller", answers |-> "full"]
 
 (* one initial state: the file is read once *)
 TraceInit == /\ all = ndJsonDeserialize(TraceFile)
